@@ -351,6 +351,11 @@ static void run_request(const std::string& ep, long a, long b, long c, long d, l
 		sink = Round(1.23456789, uidx(a));
 	else if(ep == "Factorial")
 		sink = Factorial(uidx(a));
+	else if(ep == "FactorialAfter")
+	{
+		sink = a == 0 ? Factorial((unsigned)b) : Binomial_Coefficient((int)b, (int)b / 2);
+		sink = Factorial((unsigned)c);
+	}
 	else if(ep == "BinomCoef")
 		sink = Binomial_Coefficient((int)a - 1, (int)b - 1);
 	else if(ep == "BinomBig")
